@@ -12,6 +12,9 @@ from harness.props.c03 import impl_candidates, enc_cands
 
 TARGETS = ["theories/Props/C14.vo", "theories/Proofs/GenEq_MetricTable.vo", "theories/Proofs/GenEq_MatcherLoop.vo"]
 GENEQ = {"theories/Proofs/GenEq_MetricTable.vo": "MetricTable", "theories/Proofs/GenEq_MatcherLoop.vo": "MatcherLoop"}
+# T1 units added after round 4 of the seeded changes
+TARGETS = TARGETS + ["theories/Proofs/GenEq_MetricCall.vo"]
+GENEQ = dict(GENEQ, **{"theories/Proofs/GenEq_MetricCall.vo": "MetricCall"})
 ALLOWED_AXIOMS = []
 RULE = ("case = (unmatched pair whose references are covered by 1-4 prediction fragments incl. fragments that worsen the score and competing "
         "references, metric in {IOU,DSC,ASSD}, threshold); every call of new_combination_score is logged; oracle on the implementation: each "
